@@ -131,6 +131,12 @@ def build_service(rec, behaviours=None):
         def pair(ctx, n):
             # two return values; n < 0: the method hands back Ignored instead (nothing is to be sent)
             rec.enter('pair', n)
+            if n == -2:
+                return ()           # fewer values than declared: a mistake of the method, which is no reason for the transport to break
+            if n == -3:
+                return (n,)
+            if n == -4:
+                return None
             if n is not None and n < 0:
                 from spyne.model._base import Ignored
                 return Ignored('direct callers only', n=n)
